@@ -4,8 +4,12 @@ use syn::{Error, FnArg, Pat};
 
 use super::{
     types::{ArgInfo, MethodAttrs},
-    utils::{convert_to_single_lifetime, snake_case_to_pascal_case, type_contains_lifetime},
+    utils::{
+        convert_to_single_lifetime, param_serde_attrs, peek_param_rename_attr,
+        snake_case_to_pascal_case, type_contains_lifetime,
+    },
 };
+use crate::utils::is_option_type;
 
 pub(super) fn generate_chain_method(
     method: &mut syn::TraitItemFn,
@@ -141,12 +145,16 @@ fn parse_method_arguments<'a>(
             // Check if this argument has lifetimes
             let has_lifetime = type_contains_lifetime(&ty_for_params);
 
+            // Same wire name and same treatment of `None` as in the method itself.
+            let serialized_name = peek_param_rename_attr(&pat_type.attrs);
+            let is_optional = is_option_type(ty);
+
             Some(Ok(ArgInfo {
                 name,
                 ty_for_params,
                 has_lifetime,
-                is_optional: false,
-                serialized_name: None,
+                is_optional,
+                serialized_name,
             }))
         })
         .collect()
@@ -192,7 +200,11 @@ fn generate_method_call_creation(
             .map(|info| {
                 let name = info.name;
                 let ty = &info.ty_for_params;
-                quote! { pub #name: #ty }
+                let serde_attrs = param_serde_attrs(&info.serialized_name, info.is_optional);
+                quote! {
+                    #serde_attrs
+                    pub #name: #ty
+                }
             })
             .collect();
 
